@@ -2,7 +2,7 @@
 
 use super::common::*;
 use crate::bigmodels;
-use crate::formulas::{templates, Alphabet, Gen, Hy, Names, F};
+use crate::formulas::{collision_alphabet, pair_family, templates, Alphabet, Gen, Hy, Names, F};
 use crate::oracle::Labels;
 use crate::report::{guarded, Budget, Report, Violation};
 use crate::sweep::NetCtx;
@@ -361,6 +361,10 @@ pub fn run(tier: &str) -> Result<Report, String> {
             let mut fs: Vec<F> = templates(&ctx.user, true, if tier == "quick" { 2 } else { 5 }).into_iter().filter(|f| f.uses_wild_or_dom()).collect();
             let mut g = Gen::new(Alphabet::extended(ctx.nprops(), 2, 1, 2));
             fs.extend(g.closed_up_to(if tier == "quick" { 3 } else { 4 }).into_iter().filter(|f| f.uses_wild_or_dom()));
+            if ctx.b.n >= 2 {
+                let pool: Vec<F> = collision_alphabet(&ctx.user).into_iter().take(if tier == "quick" { 8 } else { 16 }).collect();
+                fs.extend(pair_family(&pool, 4, true).into_iter().filter(|f| f.uses_wild_or_dom()));
+            }
             let res: Vec<(u64, Option<Violation>)> = fs
                 .par_iter()
                 .map(|f| {
